@@ -27,6 +27,7 @@ VECTOR_METRICS = ["mae", "bias", "rmse", "stderror", "corr", "rankcorr", "kendal
                   "dmb", "mbias", "ef", "derror", "leps", "alphaindex", "diff", "ratio", "obsstddev", "fcststddev"]
 PERFECT = ["mae", "rmse", "cmae", "stderror", "nsec", "nnsec", "kge", "alphaindex", "leps", "corr", "rankcorr", "kendallcorr",
            "derror", "bias", "diff", "ratio", "rmsf", "dmb", "mbias"]
+ALWAYS_DEFINED = ["mae", "bias", "rmse", "stderror", "cmae", "diff"]
 AGGS = mrun.AGGREGATORS + ["0", "0.25", "0.5", "0.9", "1", "0.975", "0.025", "0.125", "0.333"]
 
 
@@ -84,9 +85,21 @@ def decimal_strategy(tier):
     @st.composite
     def s(draw):
         n = draw(st.integers(2, maxlen))
-        o = draw(st.lists(v, min_size=n, max_size=n))
-        f = draw(st.lists(v, min_size=n, max_size=n))
-        return {"cls": "decimal", "obs": o, "fcst": f, "agg": draw(st.sampled_from(AGGS)), "decimal": True}
+        iv = st.integers(-150, 150)
+        cls = draw(st.sampled_from(["decimal", "decimal", "decimal-shifted", "decimal-scaled"]))
+        if cls == "decimal-shifted":
+            # a pure bias: fcst = obs + c; the spread of the errors is zero up to rounding
+            io = draw(st.lists(iv, min_size=n, max_size=n))
+            c = draw(st.integers(-150, 150))
+            o, f = [i / 10.0 for i in io], [(i + c) / 10.0 for i in io]
+        elif cls == "decimal-scaled":
+            io = draw(st.lists(iv, min_size=n, max_size=n))
+            k = draw(st.sampled_from([2, 3, 5, 7]))
+            o, f = [i / 10.0 for i in io], [i * k / 10.0 for i in io]
+        else:
+            o = draw(st.lists(v, min_size=n, max_size=n))
+            f = draw(st.lists(v, min_size=n, max_size=n))
+        return {"cls": cls, "obs": o, "fcst": f, "agg": draw(st.sampled_from(AGGS)), "decimal": True}
     return s()
 
 
@@ -160,7 +173,14 @@ def check_vector(case, ctx):
             key_agg = "" if agg == "mean" else "/" + ("quantile" if agg[0].isdigit() else agg)
             if case.get("decimal"):
                 # non-dyadic values: only well-conditioned references are judged
-                if ref is None or _nonfinite(got) or not _well_conditioned(name, pairs):
+                if ref is None or not _well_conditioned(name, pairs):
+                    continue
+                if case.get("cls") == "decimal-shifted" and agg != "mean":
+                    continue   # a spread statistic of pure rounding noise is ill-conditioned: not judged
+                if _nonfinite(got):
+                    # metrics whose definition is a finite number for any non-empty set of pairs
+                    if name in ALWAYS_DEFINED and agg == "mean" and not _nonfinite(ref):
+                        ctx.fail("C05/def/%s" % name, sub, "%s = %r on %d pairs, definition gives %r (decimal values)" % (name, got, n, ref))
                     continue
                 if not cmpx.close(got, ref, 1e-8):
                     ctx.fail("C05/def/%s%s" % (name, key_agg), sub, "%s(agg=%s) = %r, definition gives %r (decimal values)" % (name, agg, got, ref))
